@@ -21,6 +21,7 @@ for id in $ids; do
     res="$res [$p rc=$rc violations=$nv first=$first]"
     names=$(grep '^VIOLATION' $SCR.out/$id.$p.log | sed 's/.*replay=[^ ]*\///; s/-[0-9a-f]\{8\}\.json//' | sort -u | head -8 | tr '\n' ';')
     printf '%s\t%s\t%s\t%s\t%s\n' "$id" "$p" "$rc" "$nv" "$names" >> $SCR.out/matrix.tsv
+    [ -n "$VERIF_MATRIX_OUT" ] && printf '%s\t%s\t%s\t%s\t%s\n' "$id" "$p" "$rc" "$nv" "$names" >> "$VERIF_MATRIX_OUT.partial"
   done
   echo "$id:$res"
 done
